@@ -49,7 +49,7 @@ def dirops_events(rec, origin):
             obs["calls"] = obs["calls"][1:]
         n = f["len"] - prev_len
         # the image grew by n since the last flush (nothing of it has reached the destination yet)
-        evs.append({"ev": "grow", "n": n, "obs": {"imgLen": f["len"], "fpos": None, "calls": [], "synth": True}})
+        evs.append({"ev": "grow", "n": n, "obs": {"imgLen": f["len"], "fpos": 0, "calls": [], "synth": True}})
         evs.append({"ev": "flush", "entry": f["idx"] > prev_idx, "obs": obs})
         prev_len, prev_idx = f["len"], f["idx"]
     return evs
@@ -68,3 +68,70 @@ def base_target(nthreads=2, names=True, **kw):
                       **({"name_hex": ("thr%d" % i).encode().hex()} if names else {})} for i in range(nthreads)]}
     t.update(kw)
     return t
+
+
+def _tid_of(spec, report):
+    if spec == "main":
+        return report["pid"]
+    if isinstance(spec, dict) and "slot" in spec:
+        return report["threads"][spec["slot"]]["tid"]
+    return spec
+
+
+def _utf8(hexs):
+    try:
+        bytes.fromhex(hexs).decode("utf-8")
+        return True
+    except UnicodeDecodeError:
+        return False
+
+
+def names_event(run, d):
+    """C15 projection: listed threads with the kernel's name for each, and the decoded name entries."""
+    if d.get("outcome") != "ok" or "streams" not in d:
+        return {"ev": "failed", "origin": run["id"], "outcome": d.get("outcome")}
+    report, scn = run["report"], run["scn"]
+    faults = scn.get("faults", {})
+    failed = {_tid_of(s, report) for s in faults.get("name_fail", [])}
+    all_fail = "ThreadName" in faults.get("failspots", [])
+    comm = {t: h for t, h in d["oracle"]["comm_hex"]}
+    listed = []
+    for th in d["streams"]["threads"]["threads"]:
+        tid = th["tid"]
+        h = comm.get(tid)
+        name = h[:-2] if h and h.endswith("0a") else (h or "")
+        readable = (h is not None) and (tid not in failed) and (not all_fail) and _utf8(name)
+        listed.append({"tid": tid, "readable": readable, "name": name})
+    tn = d["streams"].get("threadnames")
+    names = [{"tid": n["tid"], "name": n.get("name_hex", ""), "ok": bool(n.get("name_ok"))} for n in (tn or {}).get("names", [])]
+    return {"ev": "names", "origin": run["id"], "listed": listed, "names": names, "count": (tn or {}).get("count", -1),
+            "streamOk": bool(tn and tn.get("size_ok"))}
+
+
+def c01_event(run, d):
+    if d.get("outcome") != "ok" or "objs" not in d:
+        return {"ev": "failed", "origin": run["id"], "outcome": d.get("outcome")}
+    objs = []
+    for o in d["objs"]:
+        kinds = sorted(o["kinds"])
+        alias = "+".join(kinds)
+        if alias == "ctx+ctx" and "exception" in o["owners"]:
+            alias += ":exception"
+        objs.append({"off": o["off"], "len": o["len"], "nk": len(kinds), "alias": alias})
+    st = d["streams"]
+    size_ok = [t for (t, s, r) in d["dir"] if t != 0 and st.get(TYPE_NAMES.get(t, "?"), {}).get("size_ok", t in RAW_TYPES or t == 0x4767000A)]
+    got = {"threads": st.get("threads", {}).get("count", -1), "names": st.get("threadnames", {}).get("count", -1),
+           "mem": st.get("memlist", {}).get("count", -1)}
+    nstacks = sum(1 for t in st.get("threads", {}).get("threads", []) if t["stack_size"] > 0)
+    scn = run["scn"]
+    ipwin = 1 if any(1 for o in d["objs"] if o["kinds"] == ["mem"]) and d["opts"]["crash_context"] else 0
+    exp = {"threads": got["threads"], "names": got["names"], "mem": nstacks + len(scn.get("writer", {}).get("app_memory", [])) + ipwin}
+    h = d["header"]
+    return {"ev": "c01", "origin": run["id"], "dump_no": d.get("dump_no", 1), "imgLen": d["imgLen"], "sigOk": bool(h.get("sig_ok")), "version": h.get("version", 0),
+            "count": h.get("stream_count", 0), "dirRva": h.get("dir_rva", 0), "dir": d["dir"], "sizeOk": size_ok, "objs": objs,
+            "nerr": len(d.get("parse_errors", [])), "errs": d.get("parse_errors", [])[:3], "got": got, "exp": exp}
+
+
+TYPE_NAMES = {3: "threads", 4: "modules", 5: "memlist", 6: "exception", 7: "sysinfo", 12: "handles", 16: "meminfo", 24: "threadnames",
+              0x4767000A: "dsodebug"}
+RAW_TYPES = {0x47670003, 0x47670004, 0x47670005, 0x47670006, 0x47670007, 0x47670008, 0x47670009, 0x4d7a0003, 0x4d7a0004}
